@@ -52,6 +52,7 @@ type case = {
   mutable sigpairs : (bytes * bytes) list;          (* valid (key bytes, signature) pairs *)
   mutable sigs_idx : (int * bytes) list;            (* ECDSA: key index -> signature *)
   mutable sigs_leaf : (int * string * bytes) list;  (* tap: key index, leaf hash hex, signature *)
+  mutable leafhs : string list;                      (* tap: leaf hash hex per MS/SCRIPT entry *)
   mutable hashes_c : (string * (bytes * bytes)) list;
 }
 
@@ -332,6 +333,51 @@ let handle_run (c : case) (toks : string list) =
             end
         end
       | _ -> ()
+    end;
+    (* taproot: the same two judgements per leaf.  (2') if the implementation spent through leaf j,
+       the model's satisfier on that leaf must return the same items; (3') if it found nothing,
+       neither the key path nor any leaf's specification table may yield a spend. *)
+    if c.kind = "tr" && verdict <> "PANIC" && List.length c.leafhs = List.length c.mss then begin
+      let ke = keyenv_of true in
+      let leaves = List.mapi (fun j mstr -> (j, mstr, List.nth c.scripts j, List.nth c.leafhs j)) c.mss in
+      (match impl with
+       | Some (wit, _, _) when List.length wit >= 2 ->
+         (match List.rev wit with
+          | _cb :: sc :: ritems ->
+            (match List.find_opt (fun (_, _, s, _) -> s = sc) leaves with
+             | Some (j, mstr, _, lh) ->
+               let m = parse_ms (split mstr) in
+               let se = senv_of c kmi pmi (Some lh) and f = fill_of c kmi pmi (Some lh) in
+               let model = satisfy ke se f mall (root_has_sig m) m in
+               let items = List.rev ritems in
+               if model = Some items then incr model_eq
+               else begin
+                 incr model_diff;
+                 Printf.printf "DIFF sat case=%s kind=tr leaf=%d mode=%s keymask=%s premask=%s lock=%d seq=%d desc=%s impl=%s model=%s\n"
+                   c.id j mode km pm c.lock c.seq c.desc (hexs items) (match model with Some w -> hexs w | None -> "ERR")
+               end
+             | None -> ())
+          | _ -> ())
+       | Some _ -> ()
+       | None ->
+         if mall || (c.sane && pmi = (1 lsl (List.length !pres - 1)) - 1) then begin
+           incr c02_checked;
+           let keypath = (kmi land (1 lsl 5)) <> 0 && List.exists (fun (k, _) -> List.length k = 32 && (match c.spk with _ :: _ :: r -> k = r | _ -> false)) c.sigpairs in
+           if keypath then begin
+             incr c02_bad;
+             Printf.printf "BAD C02 case=%s kind=tr mode=%s keymask=%s premask=%s lock=%d seq=%d desc=%s ms=keypath wit=- ssig=-\n"
+               c.id mode km pm c.lock c.seq c.desc
+           end else
+             List.iter (fun (j, mstr, _, lh) ->
+               let m = parse_ms (split mstr) in
+               let a = assets_of c kmi pmi (Some lh) in
+               match List.find_opt (fun w -> accepts e (enc ke m) w) (all_sat ke a m) with
+               | Some w ->
+                 incr c02_bad;
+                 Printf.printf "BAD C02 case=%s kind=tr leaf=%d mode=%s keymask=%s premask=%s lock=%d seq=%d desc=%s ms=%s wit=%s ssig=-\n"
+                   c.id j mode km pm c.lock c.seq c.desc mstr (hexs (List.rev w))
+               | None -> ()) leaves
+         end)
     end
   | _ -> failwith "bad RUN line"
 
@@ -464,6 +510,16 @@ let rec is_suffix (t : bytes list) (s : bytes list) : bool =
 let rec take_l k l = if k = 0 then [] else match l with x :: r -> x :: take_l (k - 1) r | [] -> []
 let rec drop_l k l = if k = 0 then l else match l with _ :: r -> drop_l (k - 1) r | [] -> []
 
+(* the library's Display of a Type, for the model's type *)
+let ty_string (t : ty) : string =
+  (match t.t_corr.c_base with BB -> "B" | BK -> "K" | BV -> "V" | BW -> "W") ^ "/" ^
+  (match t.t_corr.c_input with IZero -> "z" | IOne -> "o" | IOneNonZero -> "on" | IAny -> "" | IAnyNonZero -> "n") ^
+  (if t.t_corr.c_dissat then "d" else "") ^ (if t.t_corr.c_unit then "u" else "") ^
+  (match t.t_mall.m_dissat with DNone -> "f" | DUnique -> "e" | DUnknown -> "") ^
+  (if t.t_mall.m_signed then "s" else "") ^ (if t.t_mall.m_nm then "m" else "")
+let c05_types = ref 0 and c05_bad = ref 0
+let types_only = ref false
+
 let handle_frag (line : string) =
   match String.split_on_char '|' line with
   | [hd; msd; sc] ->
@@ -472,6 +528,16 @@ let handle_frag (line : string) =
        let admitted = adm = "adm" in
        let m = parse_ms (split msd) in
        let tap = ctx = "tap" in
+       (* C05: the type the library attached (type_check's dispatch, or the sugar-cast rule) must be
+          the model's type of the same fragment *)
+       incr c05_types;
+       (match type_of m with
+        | ROk t when ty_string t = tystr -> ()
+        | r ->
+          incr c05_bad;
+          Printf.printf "BAD C05 ctx=%s library_type=%s model_type=%s ms=%s\n" ctx tystr
+            (match r with ROk t -> ty_string t | RErr _ -> "ERR") (String.trim msd));
+       if !types_only then raise Exit;
        (* "!" : the library panicked while encoding a fragment it accepted and typed; the
           predictions are then judged on the model's encoding of the same fragment *)
        let enc_panicked = schex = "!" in
@@ -502,7 +568,7 @@ let handle_frag (line : string) =
          let maxlen = if a <= 7 then 4 else if a <= 11 then 3 else 2 in
          let sv_kind = if tap then "tr" else if ctx = "segwitv0" then "wsh" else "sh" in
          let hashes_tbl = { id = "c06"; kind = sv_kind; sane = true; desc = ""; scripts = []; mss = []; spk = [];
-                            txv = 2; lock = 0; seq = 0; held_abs = None; held_rel = None; sigpairs; sigs_idx = []; sigs_leaf = []; hashes_c = [] } in
+                            txv = 2; lock = 0; seq = 0; held_abs = None; held_rel = None; sigpairs; sigs_idx = []; sigs_leaf = []; leafhs = []; hashes_c = [] } in
          let envs = [ (499999999, 65535); (2147483647, 0x400000 lor 65535) ] in
          List.iter (fun (lock, seq) ->
            let e0 = mk_env_with hashes_tbl lock seq in
@@ -645,7 +711,7 @@ let handle_plan (c : case) (toks : string list) =
 
 let () =
   ms_keys_fwd := ms_keys;
-  Array.iter (fun a -> if a = "--c03" then c03_hook := c03_search; if a = "--brute" then c02_brute_max := 300) Sys.argv;
+  Array.iter (fun a -> if a = "--c03" then c03_hook := c03_search; if a = "--brute" then c02_brute_max := 300; if a = "--types-only" then types_only := true) Sys.argv;
   let cur = ref None in
   let ncases = ref 0 in
   let upd f = match !cur with Some c -> f c | None -> () in
@@ -663,10 +729,11 @@ let () =
          incr ncases;
          cur := Some { id; kind; sane = (sane = "sane=1"); desc = ""; scripts = []; mss = []; spk = [];
                        txv = 2; lock = 0; seq = 0; held_abs = None; held_rel = None;
-                       sigpairs = []; sigs_idx = []; sigs_leaf = []; hashes_c = [] }
+                       sigpairs = []; sigs_idx = []; sigs_leaf = []; leafhs = []; hashes_c = [] }
        | "DESC" :: d :: _ -> upd (fun c -> c.desc <- d)
        | "MS" :: rest -> upd (fun c -> c.mss <- c.mss @ [String.concat " " rest]; frag_hist rest)
        | "SCRIPT" :: s :: _ -> upd (fun c -> c.scripts <- c.scripts @ [bytes_of_hex s])
+       | "LEAFH" :: h :: _ -> upd (fun c -> c.leafhs <- c.leafhs @ [h])
        | "SPK" :: s :: _ -> upd (fun c -> c.spk <- bytes_of_hex s)
        | "TX" :: v :: l :: s :: _ -> upd (fun c -> c.txv <- int_of_string v; c.lock <- int_of_string l; c.seq <- int_of_string s)
        | "LOCKS" :: a :: r :: _ ->
@@ -685,7 +752,7 @@ let () =
        | "END" :: "frags" :: _ -> print_endline "ENDFRAGS"
        | "DONE" :: _ -> print_endline "ENDSAT"
        | "END" :: _ -> cur := None; Hashtbl.reset runs
-       | "FRAG" :: _ -> handle_frag line
+       | "FRAG" :: _ -> (try handle_frag line with Exit -> ())
        | "HBAD" :: pid :: _ ->
          (* a violation detected by the harness itself (two API paths of the implementation disagree) *)
          if pid = "C17" then (incr c17_bad; incr c17_checked);
@@ -697,6 +764,7 @@ let () =
    with End_of_file -> ());
   Printf.printf "SUMMARY cases=%d ok=%d bad=%d err=%d panic=%d model_eq=%d model_diff=%d c02_checked=%d c02_bad=%d c17_checked=%d c17_bad=%d c17_lockprobes=%d c03_checked=%d c03_bad=%d c03_candidates=%d c02_brute_runs=%d c02_brute_execs=%d\n"
     !ncases !stats_ok !stats_bad !stats_err !stats_panic !model_eq !model_diff !c02_checked !c02_bad !c17_checked !c17_bad !c17_lockprobes !c03_checked !c03_bad !c03_candidates !c02_brute_runs !c02_brute_execs;
+  if !c05_types > 0 then Printf.printf "SUMMARY05 types=%d bad=%d\n" !c05_types !c05_bad;
   if !c06_frags > 0 then begin
     Printf.printf "SUMMARY06 frags=%d execs=%d bad=%d\n" !c06_frags !c06_execs !c06_bad;
     Hashtbl.iter (fun k v -> Printf.printf "HIST06 %s %d\n" k v) c06_clauses
